@@ -1746,3 +1746,38 @@ Proof.
   - intros (o & [Ho|[]] & _ & [[_ K]|[_ K]]); [subst o; cbn in K; discriminate | discriminate].
   - intros [].
 Qed.
+
+(* the seeded defect C20-e on the model: BodyBuffer.Write assigning the spill file to the buffer only
+   AFTER the dump of the memory part (closing the handle when the dump fails) - the file created by
+   CreateTemp is owned by nobody, Reset cannot remove it *)
+Definition bb_write_late (S : sched) (c : cfg) (data : bytes) (w : world) : bool * world :=
+  let b := wbuf w in
+  match bb_writer b with
+  | Some _ => bb_write S c data w
+  | None =>
+    if c_mem c <? bb_len b + length data then
+      let '(r, w1) := fs_create S TSpill DTmp w in
+      match r with
+      | None => (false, w1)
+      | Some id =>
+        let '(ok, w2) := fs_write S TSpill id (bb_mem b) w1 in
+        if ok then fs_write S TSpill id data (w_set_buf (mkbb [] (bb_len b + length data) (Some id)) w2)
+        else (false, snd (fs_close S TSpill id w2))
+      end
+    else bb_write S c data w
+  end.
+
+Lemma late_writer_assignment_leaves_file :
+  exists S c d1 d2,
+    let w1 := snd (bb_write S c d1 (init_world (mkfs [] 0 []))) in
+    (* as coded: the writer is assigned before the dump, Reset removes the file *)
+    fs_files (w_fs (snd (bb_reset cur S (snd (bb_write S c d2 w1))))) = [] /\
+    (* late assignment: the file stays although no Remove failed, and the call did report the error *)
+    fst (bb_write_late S c d2 w1) = false /\
+    let w' := snd (bb_reset cur S (snd (bb_write_late S c d2 w1))) in
+    fs_files (w_fs w') <> [] /\ Forall (fun o => oi_kind o <> ORemove) (w_faults w').
+Proof.
+  exists (only_fail OWrite TSpill), (cfg_plain PNone AOff), [1%N], [2%N; 3%N].
+  vm_compute. split; [reflexivity|]. split; [reflexivity|]. split; [discriminate|].
+  repeat constructor; discriminate.
+Qed.
